@@ -7,10 +7,13 @@ CONSTANTS
   ChunkSizes <- MCOne
   NetMayFail = TRUE
   MayLeaveLitter = TRUE
+  CloseDelimited = TRUE
   WriteInPlace = FALSE
   PersistBeforeStatusCheck = FALSE
   TruncatedIsSuccess = FALSE
+  SkipValidation = FALSE
+  FixedTempName = FALSE
   NoStaleFallback = FALSE
   AbortOnRefreshError = FALSE
-INVARIANTS TypeOK Atomic FailKeeps ChangeOnlyOnSuccess SuccessVisible StartsAnyway FallsBack NoStuck
+INVARIANTS TypeOK Atomic FailKeeps ChangeOnlyOnSuccess SuccessVisible SuccessIsComplete Recovers StartsAnyway FallsBack NoStuck
 CHECK_DEADLOCK FALSE
